@@ -135,14 +135,27 @@ def generate(seed, tier):
         # an earlier split run in the same process, mostly one that is rejected after reading
         before = rng.choice(["%d#_rest" % (size + rng.randint(1, 5)), "50%_60%", "abc", "3#_x",
                              "rest", "1#_rest" if size else "rest"])
-    return {"tb": tb, "before": before, "src_fmt": src_fmt, "dest_fmt": dest_fmt, "dopts": dopts, "spec": spec,
+    before_filter = None
+    if before is not None and flt is not None and rng.random() < 0.6:
+        # the earlier run filters with the same operator and another value
+        before_filter = dict(flt, filtervalue=flt["filtervalue"] + rng.choice([-2, -1, 1, 2, 3]))
+    # the source may be a part of an earlier split with the same destination name
+    src_is_part = rng.random() < 0.1
+    return {"tb": tb, "before": before, "before_filter": before_filter,
+            "src_is_part": src_is_part, "src_fmt": src_fmt, "dest_fmt": dest_fmt, "dopts": dopts, "spec": spec,
             "filter": flt, "calls": calls, "layout": rng.randrange(1 << 30),
             "src_enc": src_enc, "dest_enc": dest_enc, "dest_name": dest_name,
             "io_seed": rng.randrange(1 << 30)}
 
 
+def src_path(sc):
+    if sc.get("src_is_part"):
+        return "/sim/w/out/%s.0" % sc.get("dest_name", "d")
+    return "/sim/w/src"
+
+
 def argv(sc, split):
-    a = ["transform", "/sim/w/src", "/sim/w/out/" + sc.get("dest_name", "d"), "--src-format",
+    a = ["transform", src_path(sc), "/sim/w/out/" + sc.get("dest_name", "d"), "--src-format",
          sc["src_fmt"],
          "--dest-format", sc["dest_fmt"], "--src-opts", "quiet",
          "--src-enc", sc.get("src_enc", "utf-8"), "--dest-enc", sc.get("dest_enc", "utf-8")]
@@ -211,13 +224,14 @@ def execute(sc, sim):
     except views.Refusal:
         refusal = True
         wv = None
-    base = {"files": {"/sim/w/src": src}, "dirs": ["/sim/w/out", "/sim/w/pre"],
-            "io_seed": sc["io_seed"]}
+    base = {"files": {src_path(sc): src}, "dirs": ["/sim/w/out", "/sim/w/pre"],
+            "io_seed": sc["io_seed"], "harvest_inputs": bool(sc.get("src_is_part"))}
     ops = [["cli", argv(sc, True)]]
     if sc.get("before"):
         st.probe("earlier_split_run_in_same_process")
         st.fault("history")
-        pre = argv(dict(sc, spec=sc["before"]), True)
+        pre = argv(dict(sc, spec=sc["before"], filter=sc.get("before_filter") or sc["filter"]),
+                   True)
         pre[2] = "/sim/w/pre/p"
         ops.insert(0, ["cli", pre])
     obs = sim.run(dict(base, sessions=[{"id": "c", "ops": ops, "on_error": "continue"}]))
